@@ -39,7 +39,7 @@ def _drop_step(trace, idx):
         dead |= {j for j, s in steps if s.get("obj") == st["obj"]}
 
     def refs(s):
-        r = [s["of"]] if s["k"] in ("repeat", "reissue") else []
+        r = [s["of"]] if s["k"] in ("repeat", "reissue", "mutate") else []
         r += [a["of"] for a in s.get("args", []) if isinstance(a, dict) and a.get("gen") == "result"]
         return r
 
@@ -56,7 +56,7 @@ def _drop_step(trace, idx):
     remap = {j: i for i, (j, s) in enumerate(kept)}
     out = []
     for j, s in kept:
-        if s["k"] in ("repeat", "reissue"):
+        if s["k"] in ("repeat", "reissue", "mutate"):
             s["of"] = remap[s["of"]]
         if s.get("args"):
             s["args"] = [dict(a, of=remap[a["of"]]) if isinstance(a, dict) and a.get("gen") == "result" else a
